@@ -126,13 +126,15 @@ MoveTree(f, src, dst, blank) ==
 Erase(f, p, blank) == [q \in Paths |-> IF q \in Under(p) THEN blank ELSE f[q]]
 
 (* ------------------------------------------------------------------ add / mkdir *)
+\* a set of results: adding what is versioned already changes nothing; whether it raises differs by format
+\* (WorkingTree3 raises AlreadyVersionedError, dirstate trees return silently)
 AddRes(p) ==
-    IF ~Has(disk, p) THEN Rej("rejected:no-such-file")
-    ELSE IF Flavour = "git" THEN (IF disk[p].k = "file" THEN Ok(disk, [ver EXCEPT ![p] = "new"]) ELSE Ok(disk, ver))
-    ELSE IF ver[p] # "no" THEN Ok(disk, ver)                                     \* already versioned: no-op
-    ELSE IF ~VerB(ver, Par(p)) THEN Rej("rejected:parent-not-versioned")
-    ELSE Ok(disk, [ver EXCEPT ![p] = "new"])
-Add(p) == /\ p \in Paths /\ Step(AddRes(p))
+    IF ~Has(disk, p) THEN {Rej("rejected:no-such-file")}
+    ELSE IF Flavour = "git" THEN {IF disk[p].k = "file" THEN Ok(disk, [ver EXCEPT ![p] = "new"]) ELSE Ok(disk, ver)}
+    ELSE IF ver[p] # "no" THEN {Ok(disk, ver), Rej("rejected:already-versioned")}
+    ELSE IF ~VerB(ver, Par(p)) THEN {Rej("rejected:parent-not-versioned")}
+    ELSE {Ok(disk, [ver EXCEPT ![p] = "new"])}
+Add(p) == /\ p \in Paths /\ \E r \in AddRes(p) : Step(r)
 
 MkdirRes(p) ==
     IF Has(disk, p) THEN Rej("rejected:file-exists")
@@ -163,6 +165,7 @@ BzrRenameRes(src, dst) ==
     ELSE IF ver[dst] # "no" THEN Rej("rejected:target-versioned")
     ELSE IF Has(disk, src) = Has(disk, dst) THEN Rej("rejected:both-or-neither-exist")
     ELSE IF ~VerB(ver, Par(dst)) THEN Rej("rejected:target-directory-not-versioned")
+    ELSE IF ~IsDir(disk, Par(dst)) THEN Rej("rejected:target-directory-missing")
     ELSE BzrDoMove(src, dst, id)
 BzrMoveRes(src, dir) ==
     LET dst == Join(dir, Name(src)) IN
@@ -176,6 +179,9 @@ GitRenameRes(src, dst) ==
     LET hs == Has(disk, src)
         hd == Has(disk, dst)
     IN IF VerG(ver, dst) THEN Rej("rejected:target-versioned")
+       \* nothing at the source, an untracked directory at the target: taken for a rename that already happened,
+       \* which moves the index entries below the source - there are none
+       ELSE IF ~hs /\ disk[dst].k = "dir" /\ ~BasisHasG(basis, dst) THEN Ok(disk, ver)
        ELSE IF ~hs THEN Rej("rejected:source-missing")                          \* (tracked but missing: not reachable)
        ELSE IF ~VerG(ver, src) /\ disk[src].k # "dir" THEN Rej("rejected:source-not-versioned")
        ELSE IF hd THEN Rej("rejected:both-or-neither-exist")
@@ -232,7 +238,8 @@ RevertRes(S) ==
         \* left-overs below a path that is no directory any more went away with what was moved aside
         d2 == [p \in Paths |-> IF Par(p) # "" /\ d1[Par(p)].k # "dir" /\ ~inB(p) THEN NONE ELSE d1[p]]
     IN Res(d2, CleanVer(basis), basis, "ok")
-Revert == \E S \in SUBSET RevertCands : Step(RevertRes(S))
+RevertTo(S) == /\ S \in SUBSET RevertCands /\ Step(RevertRes(S))
+Revert == \E S \in SUBSET Paths : RevertTo(S)
 
 Reopen == /\ TRUE /\ Step(Ok(disk, ver))
 
@@ -252,7 +259,7 @@ Next == \/ \E p \in Paths : Add(p) \/ Mkdir(p) \/ Chmod(p)
         \/ \E p, q \in Paths : Rename(p, q)
         \/ \E p \in Paths, dir \in DirNames \cup {""} : Move(p, dir)
         \/ \E p \in Paths, c \in Contents : Edit(p, c)
-        \/ Commit \/ Revert \/ Reopen
+        \/ Commit \/ (\E S \in SUBSET Paths : RevertTo(S)) \/ Reopen
 Spec == Init /\ [][Next]_vars
 
 (* ------------------------------------------------------------------ properties of the model (checked by TLC) *)
